@@ -343,7 +343,17 @@ def normalize(t, _depth=0):
             b = to_bv(t)
             if b is not None and any(f[0] in ('s', 'x') for f in b[2]):
                 return strip_int(b)
-        return ('op', t[1]) + tuple(normalize(x, _depth + 1) if isinstance(x, tuple) else x for x in t[2:])
+        r = ('op', t[1]) + tuple(normalize(x, _depth + 1) if isinstance(x, tuple) else x for x in t[2:])
+        if r[1] == 'JOIN' and len(r) == 4 and T.is_const(r[2]) and T.tag(r[3]) in ('list', 'tuple'):
+            # a join over a fixed number of pieces is their concatenation with the separator in between (the form the
+            # evaluator gives when it knows the pieces are text)
+            out = []
+            for i, x in enumerate(r[3][1]):
+                if i:
+                    out.append(r[2])
+                out.append(x)
+            return ('op', 'CAT') + tuple(out) if out else r[2]
+        return r
     if k in ('list', 'tuple'):
         return (k, tuple(normalize(x, _depth + 1) for x in t[1]))
     if k == 'phi':
